@@ -305,4 +305,51 @@ theorem bodyItems_skeleton (arch : Arch) (ops : List Op) : ∀ body, bodyItems a
         rw [e]
         exact .cons op oc rest _ ho (ih b hb)
 
+/-! ### the un-elided writes of a register program, as the decoder applies them -/
+
+/-- register file after the decoder has processed the (un-elided) writes of a register program -/
+def applyWrites (regs : RegFile) : List RegWrite → RegFile
+  | [] => regs
+  | .w0 r p :: rest => applyWrites (regSet regs ⟨false, r.code⟩ (mask16 p)) rest
+  | .w1 r o p :: rest => applyWrites (regSet regs ⟨true, r.code⟩ (mask32 o + 2 ^ 32 * mask16 p)) rest
+
+theorem go_writes (ws : List RegWrite) (rest : List Cmd) (regs : RegFile) (acc : List Event) :
+    events.go (ws.map (fun w => itemCmd w.toItem) ++ rest) regs acc = events.go rest (applyWrites regs ws) acc := by
+  induction ws generalizing regs with
+  | nil => rfl
+  | cons w ws ih =>
+    cases w with
+    | w0 r p =>
+      simp only [List.map_cons, List.cons_append, RegWrite.toItem, itemCmd, applyWrites]
+      rw [go_set0 _ _ _ _ _ (reg0_range r).1]
+      exact ih _
+    | w1 r o p =>
+      simp only [List.map_cons, List.cons_append, RegWrite.toItem, itemCmd, applyWrites]
+      rw [go_set1]
+      exact ih _
+
+def Sized (regs : RegFile) : Prop := regs.r0.size = 1024 ∧ regs.r1.size = 1024
+
+theorem sized_regSet (regs : RegFile) (k : Key) (x : Nat) (h : Sized regs) : Sized (regSet regs k x) := by
+  have := regSet_size regs k x
+  exact ⟨by rw [this.1, h.1], by rw [this.2, h.2]⟩
+
+theorem regVal_regSet' (regs : RegFile) (k k' : Key) (x : Nat) (h : Sized regs) (hc : k.code < 1024) :
+    regVal (regSet regs k x) k' = if k = k' then some x else regVal regs k' :=
+  regVal_regSet regs k k' x h.1 h.2 hc
+
+theorem get0_of_regVal (r : RegFile) (op v : Nat) (nm : String) (h : regVal r ⟨false, op⟩ = some v) : r.get0 op nm = .ok v := by
+  simp only [regVal, Bool.false_eq_true, if_false] at h
+  simp [RegFile.get0, h]
+
+theorem get1_of_regVal (r : RegFile) (op v : Nat) (nm : String) (h : regVal r ⟨true, op⟩ = some v) : r.get1 op nm = .ok v := by
+  simp only [regVal, if_true] at h
+  simp [RegFile.get1, h]
+
+theorem dma_codes : Reg0.dma0SrcRegion.code = Isa.DMA0_SRC_REGION ∧ Reg0.dma0DstRegion.code = Isa.DMA0_DST_REGION ∧
+    Reg1.dma0Src.code = Isa.DMA0_SRC ∧ Reg1.dma0Dst.code = Isa.DMA0_DST ∧ Reg1.dma0Len.code = Isa.DMA0_LEN := by decide
+
+theorem addr_fits (a : Int) (h0 : 0 ≤ a) (h1 : a < 2 ^ 48) : mask32 a + 2 ^ 32 * mask16 (a / 4294967296) = a.toNat := by
+  unfold mask32 mask16; omega
+
 end VelaVerif.EmitLemmas
